@@ -24,6 +24,9 @@ for v in "$@"; do
     owsim) ( cd /repo && go build -modfile=/verif/build/repo.mod -tags verif -o /verif/bin/ow-sim.tmp.$$ ./cmd/ow-sim ) 2> work/build-owsim.log && mv bin/ow-sim.tmp.$$ bin/ow-sim || { echo "build of ow-sim failed"; head -30 work/build-owsim.log; rc=2; } ;;
     owsim-race) ( cd /repo && go build -race -modfile=/verif/build/repo.mod -tags verif -o /verif/bin/ow-sim-race.tmp.$$ ./cmd/ow-sim ) 2> work/build-owsim-race.log && mv bin/ow-sim-race.tmp.$$ bin/ow-sim-race || { echo "build of ow-sim-race failed"; head -30 work/build-owsim-race.log; rc=2; } ;;
     owsingle) ( cd /repo && go build -tags verif -o /verif/bin/ow-single.tmp.$$ ./cmd/ow-single ) 2> work/build-owsingle.log && mv bin/ow-single.tmp.$$ bin/ow-single || { echo "build of ow-single failed"; head -30 work/build-owsingle.log; rc=2; } ;;
+    libow) ( cd /repo && go build -asan -buildmode=c-shared -o /verif/bin/libopenwater.so ./libopenwater ) 2> work/build-libow.log \
+           && gcc -fsanitize=address -g -O1 -o bin/cdrv.tmp.$$ cdriver/drv.c -Ibin -Lbin -lopenwater -Wl,-rpath,/verif/bin 2>> work/build-libow.log \
+           && mv bin/cdrv.tmp.$$ bin/cdrv || { echo "build of libopenwater.so / cdrv failed"; head -30 work/build-libow.log; rc=2; } ;;
     *) echo "unknown variant $v"; rc=2 ;;
   esac
 done
